@@ -213,7 +213,7 @@ func init() {
 			{Name: "probe-conv", Build: "plain", Check: "conv", Props: "C13", OrderProbe: true},
 			{Name: "probe-decl", Build: "plain", Check: "decl", Props: "C18", OrderProbe: true},
 		},
-		Rule: "(a0) argv reuse: 185 specs of size <= 2 x two declaration orders of the options x every command line of <= 3 tokens over 10 tokens: a fresh application is run with a caller-owned slice, the slice must read the same afterwards, and the application rebuilt and run with the very same slice must end the same (acceptance, bound values, SetByUser); (a) histories: every template rebuilt and rerun 120 times (identical outcomes), and every ordered sequence of <= 3 of 21 application templates (chosen to collide: same spec text with different declarations, same option names, the same environment variable read with different values, a rejection, a help request under ExitOnError, hooks with Exit, nested repetitions, implicit spec, two rejections caused by unconvertible values with other containers already collected, a rejection by the spec of a sub-command, two custom values of one Go type answering IsBoolFlag() differently, an accepted run under PanicOnError; error values returned by earlier runs of a history must keep reading the same) is built-and-run in one fresh process and every outcome compared with the template's outcome alone in a fresh process; (b) interleavings: the library sources are instrumented (overlay) with a scheduling point at every function entry, every loop head and before/after every statement mentioning a package-level variable; 2 (thorough: 3) templates run as cooperative threads; all schedules up to the preemption bound are enumerated depth-first (dense pass: every point; focused pass: tagged points only, higher bound), every execution on fresh objects; oracle per execution: each thread ends exactly as it does alone under the same instrumentation (result, bound values, exit codes and the text that thread itself wrote to the output stream), and no package-level variable is written by one thread and touched by another (conflict monitor); states = scheduling points visited, transitions = executions (schedules) run; traces validated = schedules executed on the real code (all of them); (c) the same bodies free-running in 16 goroutines under -race; (d) order probes: the enumerations of C06/C15, C19, C17, C13 and C18 (thorough: also C14) (millions of different applications built and run one after another in 16 long-lived processes) are run once more, and a case that fails there but passes alone in a fresh process is reported as an order dependence; non-trivial = executions with at least one preemption, histories of length >= 2",
+		Rule: "(a0) argv reuse: 185 specs of size <= 2 x two declaration orders of the options x every command line of <= 3 tokens over 10 tokens: a fresh application is run with a caller-owned slice, the slice must read the same afterwards, and the application rebuilt and run with the very same slice must end the same (acceptance, bound values, SetByUser); default reuse: strings / ints / floats64 x {option, argument} x default slice with and without spare capacity x 0-3 command-line values: the caller's default slice is unchanged by a Run and a rebuilt application binds it again; (a) histories: every template rebuilt and rerun 120 times (identical outcomes), and every ordered sequence of <= 3 of 22 application templates (chosen to collide: same spec text with different declarations, same option names, the same environment variable read with different values, a rejection, a help request under ExitOnError, hooks with Exit, nested repetitions, implicit spec, two rejections caused by unconvertible values with other containers already collected, a rejection by the spec of a sub-command, two custom values of one Go type answering IsBoolFlag() differently, an accepted run under PanicOnError, an environment variable unset at declaration and exported before Run; error values returned by earlier runs of a history must keep reading the same) is built-and-run in one fresh process and every outcome compared with the template's outcome alone in a fresh process; (b) interleavings: the library sources are instrumented (overlay) with a scheduling point at every function entry, every loop head and before/after every statement mentioning a package-level variable; 2 (thorough: 3) templates run as cooperative threads; all schedules up to the preemption bound are enumerated depth-first (dense pass: every point; focused pass: tagged points only, higher bound), every execution on fresh objects; oracle per execution: each thread ends exactly as it does alone under the same instrumentation (result, bound values, exit codes and the text that thread itself wrote to the output stream), and no package-level variable is written by one thread and touched by another (conflict monitor); states = scheduling points visited, transitions = executions (schedules) run; traces validated = schedules executed on the real code (all of them); (c) the same bodies free-running in 16 goroutines under -race; (d) order probes: the enumerations of C06/C15, C19, C17, C13 and C18 (thorough: also C14) (millions of different applications built and run one after another in 16 long-lived processes) are run once more, and a case that fails there but passes alone in a fresh process is reported as an order dependence; non-trivial = executions with at least one preemption, histories of length >= 2",
 		Assumptions: []string{"interleavings are explored at the granularity of the inserted scheduling points; Go memory-model effects below that granularity are left to the free-running -race pass, which is not exhaustive", "a report of the race detector is taken as proof (no confirmation replay)", "concurrent applications share the package-level output stream by design: outputs are compared in histories only"},
 	})
 }
